@@ -178,9 +178,10 @@ impl BlockRangeExt for BlockRange {
         let start = *self.start();
         let end = *self.end();
 
-        let Some(adjusted_end) = start.saturating_add(limit).checked_sub(1) else {
+        let Some(offset) = limit.checked_sub(1) else {
             return RangeInclusive::new(1, 0);
         };
+        let adjusted_end = start.saturating_add(offset);
 
         start..=u64::min(end, adjusted_end)
     }
